@@ -23,7 +23,10 @@ TRUSTED = ["validators are parameters of the model (Env.validate); the driver in
            "preserved by clone; library traits are identified by handler identity",
            "class-trait dictionaries of HasTraits/HasStrictTraits/HasPrivateTraits are restored before every case "
            "(they cache resolved prefix traits process-wide)"]
-ASSUMPTIONS = ["multiple inheritance: the model merges the bases' tables in the order of the bases (as the code does); "
+ASSUMPTIONS = ["trait_added listeners are modelled for one shape only: add_trait(new, Spec) for names starting with a "
+               "prefix (Obj.hooks); the theorems carry NoDeleg, which also says that no such listener is installed - "
+               "except C13_reentrant_add_governs, which is about them",
+               "multiple inheritance: the model merges the bases' tables in the order of the bases (as the code does); "
                "Python's C3 order is computed by the oracle only, not modelled in Lean",
                "no change handlers are attached (call_notifiers is never entered on the modelled paths)",
                "trait_added keeps its HasTraits declaration, so the event fired by get_prefix_trait/add_trait is a "
@@ -60,6 +63,9 @@ def corpus():
         "res|cls A H x=Int@1,q_=Int@2;cls B A x=Str@3,q_=Str@4;cls C A -;cls D C,B -;new d D;set d .x sa;set d .qq sa",
         # the shadow of an instance-level delegate is cached in the class (known finding)
         "res|cls A H dg=Any@1;new a A;new b A;add a .w Deleg@5;get a .w_;get b .w_;set b .w_ i1;rem a .w;set a .w_ i1",
+        # a trait_added listener adds an instance trait for the name being resolved: it governs that very access
+        "res|cls A S f_=Int@1;new a A;new b A;hook a .f_s Str@9;get a .f_s1;get a .f_n1;set a .f_s2 sx;set a .f_s2 i3;"
+        "rem a .f_s2;get a .f_s2;get b .f_s3;get a .f_s3;hook a .z Dis@7;add a .zz Int@6;get a .zz",
         # strict / private defaults, instance trait shadows and is removed again
         "res|cls A S -;cls B P -;new a A;new b B;get a .u;set a .u i1;del a .u;get b .u;get b ._u;set b ._u sa;"
         "get b ._u;add a .u Int@9;set a .u i3;get a .u;rem a .u;get a .u;set a .u i1",
@@ -86,6 +92,8 @@ def generate(rng, tier):
         yield R.mi_history(rng)
     for _ in range(nl):
         yield R.deleg_history(rng)
+    for _ in range(2 * nl):
+        yield R.hook_history(rng)
 
 
 def _hit(sig, what, **kw):
@@ -175,6 +183,18 @@ def run_impl(case):
             continue
         o = robj[words[1]]
         name = info["name"]
+        if k == "hook":
+            tags.add("trait_added-listener")
+            continue
+        # instance traits added by trait_added listeners *during* this operation exist from that moment on:
+        # by the property they govern the rest of the operation (the add_trait op sets its own trait first)
+        if k == "add":
+            o.itraits[name] = R.decl_of_spec(words[3])
+        for (lo, lname, lspec) in impl.added_by_listener:
+            ro = next(r for on, r in robj.items() if impl.objs[on] is lo)
+            ro.itraits[lname] = R.decl_of_spec(lspec)
+            tags.add("listener-added-instance-trait" + (":for-the-resolved-name" if lname == name and ro is o else ""))
+        del impl.added_by_listener[:]
         real = out.rsplit(" g=", 1)[0]
         g = info["g"]
         tags.add(name_class(name))
@@ -183,9 +203,7 @@ def run_impl(case):
             # `v`, `v_`, `v__`, ... where `v` is a delegate *for this object*: delegate access and the
             # `name_` shadow rule of __prefix_trait__ are not in the property text (correspondence only)
             tags.add("delegate-rule(correspondence only)")
-            if k == "add":
-                o.itraits[name] = R.decl_of_spec(words[3])
-            elif k == "rem":
+            if k == "rem":
                 o.itraits.pop(name, None)
             continue
         tags.add("out:" + " ".join(real.split()[:2]) if real.startswith("err") else "out:" + real.split()[0])
@@ -205,7 +223,6 @@ def run_impl(case):
             if info["post"] is not info["pre"]:       # the stored value was replaced or removed
                 over_value.discard((id(info["obj"]), name))
         elif k == "add":
-            o.itraits[name] = R.decl_of_spec(words[3])
             d, route = o.itraits[name], "instance"
             if info["pre"] is not R.MISSING:
                 over_value.add((id(info["obj"]), name))
